@@ -29,3 +29,14 @@ Theorem c13_borrowed_source_untouched : forall e, e_owning e = false -> forall p
   forall t f, dropped_all (c_trace (final_step e (exec e (init progs) sched) t f)) = [].
 Proof. exact borrowed_source_untouched. Qed.
 Print Assumptions c13_borrowed_source_untouched.
+
+(** the source of the adaptors is the reviewed forwarding code (regenerated from cloned.rs, copied.rs and the
+    two buffered-chunk adaptors on every run): this is what justifies giving them no behaviour in the model *)
+From Coq Require Import List String.
+From OCI.gen Require Import Adaptors.
+From OCI.proofs Require Import AdaptorsOk.
+Theorem c13_adaptors_are_the_reviewed_forwarders :
+  adaptor_methods = reviewed_adaptor_methods /\ forallb forwards reviewed_adaptor_methods = true /\
+  existsb (fun m => has_sub "::fetch_one"%string (fst m)) reviewed_adaptor_methods = false.
+Proof. exact (conj adaptors_are_the_reviewed_forwarders (conj reviewed_methods_forward fetch_one_not_overridden)). Qed.
+Print Assumptions c13_adaptors_are_the_reviewed_forwarders.
